@@ -270,7 +270,11 @@ def judge(combo, o):
         bad.append(('%d failed executions after the notification but repeatRetries=%d' % (failures, combo['retries']), 'C13:too-many-retries'))
     # (ii) final output observed
     externally_killed = o['t_kill'] is not None
-    if combo['pattern'] in ('out0', 'out0+last', 'periodic', 'periodic+last') and not externally_killed:
+    # the configured kill delay is a deadline counted from the notification ("... or the configured kill delay expires";
+    # tests/test_engines.py: "the engine kills itself after the delay"): an observer that is stopped BY the deadline need not
+    # have executed again; stopping earlier than the deadline without such an execution is still judged
+    stopped_by_deadline = combo['delay'] is not None and o['end_time'] >= tn + combo['delay']
+    if combo['pattern'] in ('out0', 'out0+last', 'periodic', 'periodic+last') and not externally_killed and not stopped_by_deadline:
         t_o = max(outs)
         # an attempt whose submission failed (the task could not be created) counts as an attempt made after the output
         attempts = [t for t, n in o['launches']] + [t for t, n in (o.get('launch_failed') or [])]
